@@ -661,7 +661,7 @@ class RestrictRfc:
                 if d and r < 0.1:
                     texts.append(None)
                     continue
-                if label == "-" and r < 0.22:
+                if label == "-" and r < 0.1:
                     # chains with touching base parts need a base that has them
                     lt = self.labelled(rng, ty, base)
                     if lt:
